@@ -131,6 +131,53 @@ CLAIMED['C16'] = dict(
         'modelled; arguments are values in the model (their integrity is observed by the harness). No axioms.',
    technique='Coq proof (coherence invariant by induction over operation lists) + in-Coq correspondence on histories + fresh-object differential',
    ref='5/C16, 9')
+CLAIMED['C07'] = dict(
+   text='Machine-checked real-analysis proofs (Coq Reals) about the formulas the code contains: haversine distance is symmetric, zero on identical points, in '
+        '[0, PI*R] (attained exactly at antipodes), equals R*acos(u.v) (the great-circle distance on the 6 371 000 m sphere) and the chord/unit-vector distance, is '
+        'unchanged by the antimeridian un-wrapping and by any common longitude shift with re-normalisation; the bearing is in [0,360) before and after rounding and '
+        'is the initial azimuth (following it for the computed distance arrives at the target); the direct problem returns the point at exactly the requested '
+        'distance (dest_dist) and initial bearing (dest_bearing), identically for the degree and radian entry points, rounding bounded by 5e-8 deg per axis; planar '
+        'rotation is an isometry about the origin, composes additively, is the identity at 0. Tied to calc.py/_geometry.py on every run by the translator (6 GenEq '
+        'lemmas, by reflexivity) and by per-case `interval` lemmas |model - implementation| <= eps (quick ~250, thorough ~2500) plus a numeric law oracle.',
+   note='Trusted: Coq kernel; Reals axioms (ClassicalDedekindReals.sig_forall_dec, sig_not_dec, functional_extensionality_dep, Classical_Prop.classic) and the '
+        'primitive int/float operations Interval uses; tools/translate.py + gen_sphere.py rewrites; harness. NOT proved: IEEE/libm error and the conversion of the '
+        '1e-7 deg rounding into the 2 cm figure (observed by the interval lemmas and the oracle); dist_xyz_meters and rotate_coordinates are tied by correspondence only; '
+        'finding D34 (longitude exactly -180 cannot be un-wrapped).',
+   technique='Coq real-analysis proofs (nsatz/ring/field identities, atan2 by cases) + translator tie + per-case interval-arithmetic correspondence',
+   ref='5/C07, 9')
+CLAIMED['C03'] = dict(
+   text='PARTIAL. Machine-checked proofs that the analytic membership tests of circle / ellipse / ring / wedge are exactly their documented definitions (distance and '
+        'bearing compared with the radius function, holes removed), that b <= radius_at <= a with the axis values, that EVERY generated boundary point lies exactly '
+        'on the defined curve at the scheduled bearing for any k (from dest_dist / dest_bearing of C07), circle bearings strictly decrease along the list, first = last, '
+        'list shapes for every k; the returned coordinate is within 5e-8 deg per axis of a point on the curve (2 cm figure: partial, degrees not metres). Tied to the '
+        'code by the translator (4 GenEq lemmas) and per-case `interval` lemmas for boundary coordinates and contains decisions plus a numeric oracle with an '
+        'independent geodesic. The chord-error clause (polygon form vs analytic test) is NOT proved and is exercised on a fixed corpus only; findings D35 (polygon '
+        'form across +-180) and D36 (wedge through north).',
+   note='Trusted: as C07 (Reals axioms, Interval primitives, translator, harness). Not proved: IEEE/libm error, 2 cm in metres, strict angular order for ellipse/ring, chord error.',
+   technique='Coq real-analysis proofs on top of C07 + translator tie + per-case interval correspondence; fixed corpus for the chord clause',
+   ref='5/C03, 9')
+CLAIMED['C11'] = dict(
+   text='Machine-checked proof, for every table satisfying cfg_ok (proved by computation for the three tables REGENERATED from geohash.py on every run), every rational '
+        'coordinate and every length/string (no bound): encode yields exactly n characters of the alphabet; the decoded closed cell contains the coordinate; shorter '
+        'encodings are prefixes; re-encoding the centre (indeed any point of the half-open cell) returns the same geohash; the 2^bits sub-hashes are distinct, inside the '
+        'parent, cover it, have disjoint interiors and their areas add up; out-of-alphabet characters give ValueError and in-alphabet strings always decode; the cell box '
+        'has the cell corners and contains the closed cell when the east edge is below 180 (REFUTED at 180: finding D12a). Tied to the code by the regenerated-table '
+        'GenEq lemmas and an in-Coq correspondence exhaustive over all 9 584 cells to depth 3/2/2 plus random coordinates at lengths 1..12 under all three bases interleaved.',
+   note='Trusted: Coq kernel + vm_compute; gen_geohash.py table dump; harness. Float = rational agreement rests on exact dyadic bisection (length <= 12..22 depending on base; '
+        'observed, not proved). No axioms.',
+   technique='Coq proof (induction on the bit schedule, generic in the table) + regenerated-table tie + exhaustive in-Coq correspondence',
+   ref='5/C11, 9')
+CLAIMED['C12'] = dict(
+   text='PARTIAL. Machine-checked proof, for every cell type, neighbour function, per-cell test and queue order, that the flood fill returns exactly the cells reachable '
+        'from the start cell through touching cells (sound, complete, terminating on the Niemeyer instance, no duplicates); that a multi-shape hashes to the union of '
+        'its members; that hash_collection maps each cell to the aggregation of exactly the shapes whose own hash set contains it, in collection order (count by '
+        'default), and hash_coordinates likewise; a point hashes to its cell (via C11). "Exactly the touched cells" holds under the hypothesis that the touched cells '
+        'are connected to the start cell: 8-connectivity of the cells touched by a shape and geometric truth of the per-cell box test are NOT proved. Tied to the code '
+        'by an in-Coq correspondence that instantiates the per-cell test with the implementation own answers over an enlarged window and compares with the model flood '
+        'and the full touched set. H3 clauses: no theorem, fixed corpus only. Finding D12b (east column at lon 180).',
+   note='Trusted: Coq kernel + vm_compute; FloodM mirrors the loop (correspondence only); C11 codec model for neighbours; harness. No axioms.',
+   technique='Coq proof (BFS reachability invariants, group-by specification) + oracle-instantiated in-Coq correspondence; fixed corpus for H3',
+   ref='5/C12, 9')
 NOT_YET = {}
 NA = {
  'C20': 'The observable is the composition of three third-party codecs (pyshp binary I/O, GeoPandas/GEOS, fastkml XML); '
